@@ -13,7 +13,7 @@ import os, re, subprocess
 
 COQ = '/verif/coq'
 
-UINT = {'u8': 0, 'u16': 1, 'u32': 2, 'u64': 3, 'u128': 4, 'u256': 5}
+UINT = {'u8': 0, 'u16': 1, 'bu16': 1, 'u32': 2, 'u64': 3, 'u128': 4, 'u256': 5}
 
 
 def ekind_term(kind):
